@@ -121,6 +121,16 @@ def replay_cell(args):
 REPLAYERS = {"cell": replay_cell}
 
 
+def float_pairs_cell(args):
+    cell = dict(args["cell"])
+    cell["ZMq"] = tuple(cell["ZMq"])
+    with cm.fixed_nf():
+        return pairs_for(cell, cm.ew_params(values=args["params"]), float(args["params"].get("Q2", 10.0)))
+
+
+REPLAYERS["cell:pairs"] = float_pairs_cell
+
+
 def run(chk, only=None):
     import yadism.coefficient_functions as cf
     from yadism.coefficient_functions import coupling_constants as ccmod
